@@ -19,7 +19,7 @@ ASSUMPTIONS = ["numpy.fft is the reference DFT", "tolerance 1e-9*max(1,max|ref|)
 @st.composite
 def s_case(draw):
     big = draw(st.integers(0, 9)) == 0
-    huge = draw(st.integers(0, 59 if os.environ.get("VF_TIER") == "thorough" else 499)) == 0
+    huge = draw(st.integers(1, 2 ** 30)) % (60 if os.environ.get("VF_TIER") == "thorough" else 500) == 7
     n = draw(st.sampled_from([131072, 100003, 2 ** 17 + 1, 2 ** 18 + 1, 300000, 2 ** 19 + 7])) if huge else \
         draw(st.sampled_from([2048, 4096, 4095, 2047, 8191])) if big else draw(st.one_of(st.sampled_from(LENGTHS), st.integers(1, 300)))
     x = draw(s_signal(n=n, fams=["gauss", "unif", "smallint", "spike", "const", "lead0", "alt", "periodic", "sorted", "sym"]))
